@@ -23,7 +23,7 @@ from ..core import Clause, Violation, close
 from . import _graph as G
 from . import _img as I
 
-RULE = ("A history = a pool of inputs (2..4 diagrams held as float64 array, float32 array, integer array or nested list; one diagram with infinite deaths held as float64 or float32 array; 2 graphs as dense / sparse / nested-list "
+RULE = ("A history = a pool of inputs (2..4 diagrams held as float64 array, float32 array, integer array (int64, int16 or uint8) or nested list; one diagram with infinite deaths held as float64 or float32 array; 2 graphs as dense / sparse / nested-list "
         "adjacency) + a generated list of calls to the public entry points (distances with and without matchings, heat, sliced Wasserstein, entropy, "
         "mGH pair and collection, both imagers incl. plots, exact / grid landscapes and their arithmetic, norms, tools, transformer, diagram / "
         "matching / landscape plots, kernels and weights). Every pooled input is snapshotted at creation (dtype, shape, bytes; deep copy for lists; "
@@ -38,7 +38,7 @@ ASSUMPTIONS = [
     "diagrams have integer coordinates (so that an integer-array form with equal values exists) and strictly positive persistence",
 ]
 
-FORMS = ["float", "int", "list", "float32"]
+FORMS = ["float", "int", "list", "float32", "uint8", "int16"]
 
 
 def as_form(pts, form):
@@ -48,6 +48,8 @@ def as_form(pts, form):
         return np.array(pts, dtype=np.int64)
     if form == "float32":
         return np.array(pts, dtype=np.float32)
+    if form in ("uint8", "int16"):
+        return np.array(pts, dtype=getattr(np, form))
     return [[int(b), int(d)] for b, d in pts]
 
 
@@ -316,8 +318,8 @@ INF_ENTRIES = {"entropy_inf": i_entropy, "plot_diagrams_inf": i_plot, "bottlenec
 INF_OPTS = st.fixed_dictionaries({"keep": st.booleans(), "val": st.sampled_from([50.0, 20.0]), "normalize": st.booleans(), "lifetime": st.booleans(),
                                   "twice": st.booleans(), "num_steps": st.sampled_from([10, 25])})
 
-ALL3 = ("float", "int", "list", "float32")
-ARR2 = ("float", "int", "float32")
+ALL3 = ("float", "int", "list", "float32", "uint8", "int16")
+ARR2 = ("float", "int", "float32", "uint8", "int16")
 ENTRIES = {
     "bottleneck": (e_bottleneck, ALL3), "wasserstein": (e_wasserstein, ALL3), "heat": (e_heat, ALL3), "sliced_wasserstein": (e_sliced, ARR2),
     "persistent_entropy": (e_entropy, ARR2), "imager_transform": (e_imager_transform, ALL3), "imager_fit_transform": (e_imager_fit_transform, ARR2),
@@ -499,7 +501,9 @@ def run_history(case, ctx):
                 # floating-point arrays of EQUAL value, and single-precision arithmetic inside a routine (e.g. a float32 grid whose
                 # half-way ties fall the other way) is a different computation, not a different representation of the same one
                 continue
-            rel = 1e-9
+            # sliced_wasserstein projects with float32 direction vectors by construction (C15): with narrow integer rows the
+            # dot products stay float32, so agreement is to single precision there
+            rel = 1e-5 if o["fn"] == "sliced_wasserstein" else 1e-9
             ok = len(other) == len(base) and all((math.isnan(u) and math.isnan(v)) or close(u, v, max(1.0, abs(u)), rel=rel) for u, v in zip(base, other))
             ctx.require(ok, "representation_dependent",
                         lambda: "%s: result for %s-form inputs differs from %s/%s-form inputs (%d vs %d numbers; first difference %s)"
